@@ -758,6 +758,10 @@ def k14_walk(ctx, pid: str):
         if pops:
             return out + [("K14.exit", name, False, "the map is consumed after the walk has ended")]
         nonempty = [v for t, v in o.path.choices if t.startswith("nonempty ")]
+        if not nonempty:
+            # leftovers examined through len(modmap)
+            nonempty = [v for t, v in o.path.choices if t.startswith("arith len:map:M-1>=0")]
+            nonempty += [not v for t, v in o.path.choices if t.startswith("arith -len:map:M>=0")]
         warns = [e for e in o.path.effects if e[0] == "warn"]
         if not nonempty:
             out.append(("K14.unused", name, False, "left-over modules are never looked at when the walk ends"))
